@@ -143,7 +143,7 @@ theorem unNode_rel (a : Act) (ha : isUnArith a = true) (c0 : NS) (g0 : Spec.GV) 
 
 /-- **conversion node** `T(x)` to an integer type, both directions: the converted constant when the value is
     representable in `T` — for an untyped operand through `convertUntyped`, for a typed one through the check that
-    7402c20 added — a compile error otherwise -/
+    e6c1f4a added — a compile error otherwise -/
 theorem convNode_rel (k : IKind) (c1 : NS) (g1 : Spec.GV) (i1 : Inv c1 g1) :
     Rel (convNodeY F0 (.i k) c1) (Spec.convGo (.i k) g1) := by
   rcases i1.shape with ⟨ka, p, hka, rfl, h1ty, h1rv⟩ | ⟨k', p, rfl, h1ty, h1rv, hp⟩
